@@ -8,3 +8,4 @@ import Verif.Properties.C05
 #print axioms C02.local_sound
 #print axioms C02.allRefs_complete
 #print axioms C02.allRefs_sound
+#print axioms C05.refFree_removeUnused
